@@ -28,7 +28,7 @@ SpecCell(gg, s, X) == A[gg].tbl[s + 1][X]
 DumpCell(gg, s, X) == Ds[gg].table[s + 1][SymIdx(gg, X)]
 
 GRof(gg) == [nnt |-> Gs[gg].nnt, nt |-> Gs[gg].nt, R |-> A[gg].R, tnames |-> Gs[gg].tnames,
-             ruletext |-> Gs[gg].ruletext, obsT |-> Gs[gg].obsT, obsC |-> Gs[gg].obsC, dflt |-> Gs[gg].dflt, ctxr |-> Gs[gg].ctxr, lexobs |-> Gs[gg].lexobs]
+             ruletext |-> Gs[gg].ruletext, obsT |-> Gs[gg].obsT, obsC |-> Gs[gg].obsC, dflt |-> Gs[gg].dflt, ctxr |-> Gs[gg].ctxr, noval |-> Gs[gg].noval, lexobs |-> Gs[gg].lexobs]
 
 \* reference lexer for grammars whose terms are single characters (host grammars): first listed wins
 RECURSIVE FirstCharTerm(_, _, _)
@@ -98,11 +98,15 @@ LexLinesDump(gg, bytes, p, ln, cl, vb) ==
 
 \* C18: the harness' custom lexer answers (index, length) as dictated by the byte it is asked at (harness/rt.hpp
 \* byte_lexer): arbitrary in-range answers, chosen by the input itself
-LexByte(gg, bytes, p) ==
+\* bytes 0x80..0x8F: a VIRTUAL term (index b - 0x80) of length 0, answered until it has been shifted at that offset
+\* (zd: offsets where a zero-length term was shifted); afterwards the same byte is that term with length 1
+LexByte(gg, bytes, p, zd) ==
   LET b == bytes[p + 1]
       idx == (b - 64) \div 4
       ln == ((b - 64) % 4) + 1
-  IN IF b < 64 \/ b > 127 \/ idx >= Gs[gg].nt \/ ln > Len(bytes) - p THEN <<-1, 0>> ELSE <<TB + idx, ln>>
-LexDispatch(gg, bytes, p) == IF Gs[gg].lex = "chars" THEN LexChars(gg, bytes, p)
-                             ELSE IF Gs[gg].lex = "byte" THEN LexByte(gg, bytes, p) ELSE LexRefAt(gg, bytes, p)
+  IN IF b >= 128 /\ b < 144
+     THEN (IF b - 128 >= Gs[gg].nt THEN <<-1, 0>> ELSE IF p \in zd THEN <<TB + (b - 128), 1>> ELSE <<TB + (b - 128), 0>>)
+     ELSE IF b < 64 \/ b > 127 \/ idx >= Gs[gg].nt \/ ln > Len(bytes) - p THEN <<-1, 0>> ELSE <<TB + idx, ln>>
+LexDispatch(gg, bytes, p, zd) == IF Gs[gg].lex = "chars" THEN LexChars(gg, bytes, p)
+                                 ELSE IF Gs[gg].lex = "byte" THEN LexByte(gg, bytes, p, zd) ELSE LexRefAt(gg, bytes, p)
 =============================================================================
